@@ -5,8 +5,10 @@ from fractions import Fraction
 
 from ..core import Op, jkey
 from ..rat import rat, frac
-from ..axis_common import guarded, fl, is_err, rats
+from ..axis_common import guarded, fl, is_err, rats, ulp_up, ulp_down
 from .. import gen_geom
+from .. import c20_build as B
+from .. import history
 
 PROPERTY = "C20"
 LEAN_MODULE = "Proofs.C20"
@@ -65,29 +67,8 @@ DTYPES = ["float32", "float64", "int32", "int16", "uint8"]
 
 
 # ------------------------------------------------------------------ implementation
-def _template(inp):
-    import numpy as np
-    import xarray as xr
-    from soundevent import arrays
-    t = np.array(fl(inp["time"]), dtype=float)
-    fr = np.array(fl(inp["freq"]), dtype=float)
-    tv = arrays.create_time_dim_from_array(t)
-    fv = arrays.create_frequency_dim_from_array(fr)
-    rs = np.random.RandomState(inp.get("contents", 0))
-    dims = ["time", "frequency"] if inp["time_first"] else ["frequency", "time"]
-    extra = inp.get("extra_dim")          # position of a third dimension ("channel", 2 entries), or None
-    if extra is not None:
-        dims.insert(extra, "channel")
-    size = {"time": len(t), "frequency": len(fr), "channel": 2}
-    data = rs.uniform(-5, 5, size=tuple(size[d] for d in dims))
-    if inp.get("contents", 0) == 0:
-        data = np.zeros_like(data)
-    return xr.DataArray(data, dims=tuple(dims), coords={"time": tv, "frequency": fv})
-
-
-def _num(x):
-    """a value / fill of the request: ints stay ints, rational strings become floats"""
-    return x if isinstance(x, int) else float(frac(x))
+# live objects (template, geometries, the call and the ways of building / passing them): harness/c20_build.py
+_num = B.num
 
 
 def _canon(r, inp):
@@ -98,47 +79,15 @@ def _canon(r, inp):
     v = np.asarray(r.values)
     if v.ndim != 2 or not np.all(np.isfinite(v)):
         return {"raise": "crash:not-a-finite-2d-raster"}
-    return {"val": {"dims": list(r.dims), "time": [rat(float(c)) for c in r.coords["time"].values],
+    return {"val": {"dims": [str(getattr(d, "value", d)) for d in r.dims],
+                    "time": [rat(float(c)) for c in r.coords["time"].values],
                     "freq": [rat(float(c)) for c in r.coords["frequency"].values],
                     "grid": [[rat(float(x)) for x in row] for row in v]}}
 
 
-def _dtype_arg(inp):
-    import numpy as np
-    dt = inp.get("dtype") or "float32"
-    how = inp.get("dtype_as", "str")
-    return {"str": dt, "np": np.dtype(dt), "type": np.dtype(dt).type}[how]
-
-
-def _values_arg(inp, vals):
-    import numpy as np
-    if isinstance(vals, list):
-        vs = [_num(v) for v in vals]
-        if inp.get("values_np"):
-            vs = [np.float64(v) if isinstance(v, float) else np.int64(v) for v in vs]
-        return tuple(vs) if inp.get("values_tuple") else vs
-    v = _num(vals)
-    if inp.get("values_np"):
-        v = np.float64(v) if isinstance(v, float) else np.int64(v)
-    return v
-
-
 def _call(inp, geoms=None, all_touched=None, values=None):
     """the real call; keys that are absent / None in the request are left to the signature's defaults"""
-    from soundevent.geometry import rasterize
-    gs = [gen_geom.to_data(g) for g in (inp["geoms"] if geoms is None else geoms)]
-    kw = {}
-    vals = inp.get("values") if values is None else values
-    if vals is not None:
-        kw["values"] = _values_arg(inp, vals)
-    if inp.get("fill") is not None:
-        kw["fill"] = _num(inp["fill"])
-    if inp.get("dtype") is not None:
-        kw["dtype"] = _dtype_arg(inp)
-    at = inp.get("all_touched") if all_touched is None else all_touched
-    if at is not None:
-        kw["all_touched"] = at
-    return rasterize(gs, _template(inp), **kw)
+    return B.call(inp, B.geometries(inp, geoms), B.template(inp), all_touched=all_touched, values=values)
 
 
 @guarded
@@ -637,60 +586,245 @@ def _unclose(g):
     return {"type": "MultiPolygon", "coordinates": [[cut(r) for r in poly] for poly in g["coordinates"]]}
 
 
+# ---- one request over all nine geometry types, every option class either fixed (`fix`) or drawn
+PAIR_DIMS = {
+    "gtype": list(gen_geom.TYPES),
+    "shape": ["square", "wide", "tall", "row", "col"],      # wide: more time bins, tall: more frequency bins
+    "time_first": [False, True],
+    "extra_dim": [None, 0, 1, 2],
+    "all_touched": [None, False, True],
+    "fill": ["absent", "zero", "int", "frac"],
+    "dtype": [None] + DTYPES,
+    "values_kind": ["absent", "scalar", "list", "tuple", "np", "wrong"],
+    "reach": ["inside", "above", "below", "on-last"],       # where the first geometry lies relative to the axes
+    "axis": ["half", "decimal", "irregular", "range"],      # range: built by create_*_range, 'step' attribute
+    "call_as": ["kw", "kw_all", "pos1", "pos3", "pos6"],
+    "geom_build": list(B.GEOM_BUILDS),
+    "tpl_how": list(B.TPL_HOWS),
+}
+INT_DTYPES = ("int32", "int16", "uint8")
+
+
+def _pair_ok(d1, v1, d2, v2):
+    """option values that cannot go together inside the property's domain"""
+    c = {d1: v1, d2: v2}
+    return not (c.get("fill") == "frac" and c.get("dtype") in INT_DTYPES)
+
+
+def _shape_of(rng, shape):
+    if shape == "square":
+        n = rng.randint(2, 6)
+        return n, n
+    if shape == "wide":
+        nf = rng.randint(1, 6)
+        return rng.randint(nf + 1, 8), nf
+    if shape == "tall":
+        nt = rng.randint(1, 6)
+        return nt, rng.randint(nt + 1, 8)
+    if shape == "row":
+        return 1, rng.randint(2, 8)
+    return rng.randint(2, 8), 1
+
+
+def _range_axis(rng, n, which, positive=False):
+    """an axis as create_time_range / create_frequency_range makes it (numpy.arange, non-dyadic step, 'step' attribute)"""
+    from soundevent import arrays
+    if which == "time":
+        a, s = rng.choice([0.5, 3.0] if positive else [0.0, 0.0, 0.5, 3.0]), rng.choice([0.01, 0.1, 0.004, 0.05])
+        if a == 0.0 and rng.random() < 0.3:
+            sr = int(round(1 / s))
+            spec = {"start": rat(a), "stop": rat(n * s), "samplerate": sr}
+            var = arrays.create_time_range(a, n * s, samplerate=sr)
+        else:
+            spec = [rat(a), rat(a + n * s), rat(s)]
+            var = arrays.create_time_range(a, a + n * s, step=s)
+    else:
+        a, s = rng.choice([100.0, 1000.0] if positive else [0.0, 0.0, 100.0, 1000.0]), rng.choice([0.3, 100.1, 43.066, 0.1, 1000 / 3])
+        spec = [rat(a), rat(a + n * s), rat(s)]
+        var = arrays.create_frequency_range(a, a + n * s, step=s)
+    vals = [float(x) for x in var.values]
+    if not vals:
+        vals, spec = [a], None
+    return vals, spec
+
+
+def _region(ax, reach):
+    """the interval of one axis in which a geometry of the given reach is drawn (never below 0)"""
+    lo, hi = ax[0], ax[-1]
+    step = (ax[1] - ax[0]) if len(ax) > 1 else 1.0
+    if reach == "above":
+        return (lo + hi) / 2, hi + 2.5 * step + 1
+    if reach == "below":
+        return max(0.0, lo - 2 * step - 1), (lo + hi) / 2 + step / 2
+    return max(0.0, lo - step / 2), hi + step
+
+
+def _on_last(rng, g, t, fr):
+    """a vertex exactly on the last coordinate of each axis"""
+    ty, lt, lf = g["type"], rat(t[-1]), rat(fr[-1])
+    if ty == "TimeStamp":
+        return {"type": ty, "coordinates": lt}
+    if ty == "TimeInterval":
+        return {"type": ty, "coordinates": [rat(t[0]), lt] if rng.random() < 0.5 else [lt, rat(t[-1] + 1)]}
+    if ty == "Point":
+        return {"type": ty, "coordinates": [lt, lf]}
+    if ty == "BoundingBox":
+        return {"type": ty, "coordinates": [rat(t[0]), rat(fr[0]), lt, lf] if rng.random() < 0.5
+                else [lt, lf, rat(t[-1] + 1), rat(fr[-1] + 1)]}
+    if ty == "MultiPoint":
+        return {"type": ty, "coordinates": [[lt, lf]] + g["coordinates"][1:]}
+    if ty == "LineString":
+        return {"type": ty, "coordinates": g["coordinates"][:-1] + [[rat(max(t[-1], float(frac(g["coordinates"][0][0])))), lf]]}
+    return g          # polygons: their reach is given by the region they are drawn in
+
+
+def _typed_geometry(rng, ty, t0, t1, f0, f1):
+    """a valid geometry of exactly the type `ty` in the region (gen_valid falls back to a box for unlucky polygons)"""
+    g = gen_geom.gen_valid(rng, ty, tmin=t0, tmax=t1, fmin=f0, fmax=f1, k=3)
+    if g["type"] == ty:
+        return g
+    tri = [[rat(t0), rat(f0)], [rat(t1), rat(f0)], [rat(t1), rat(f1)], [rat(t0), rat(f0)]]
+    return {"type": ty, "coordinates": [tri] if ty == "Polygon" else [[tri]]}
+
+
+def _general_case(ctx, rng, fix=None, prev_geoms=None):
+    fix = fix or {}
+    pick = lambda dim, options=None: fix[dim] if dim in fix else rng.choice(options or PAIR_DIMS[dim])
+    shape = fix.get("shape")
+    nt, nf = _shape_of(rng, shape) if shape else (rng.randint(1, 8), rng.randint(1, 8))
+    spacing = pick("axis", ["half", "decimal", "irregular", "irregular", "range"])
+    reach = pick("reach", ["inside", "inside", "above", "below", "on-last"])
+    inp = {}
+    off_t, off_f = (1.5, 2.0) if reach == "below" else (0.0, 0.0)     # room below the first coordinate
+    if spacing == "half":
+        t, fr = [i * 0.5 for i in range(nt)], [i * 1.0 for i in range(nf)]
+    elif spacing == "decimal":
+        t, fr = [0.25 + i * 0.1 for i in range(nt)], [0.5 + i * 0.3 for i in range(nf)]
+    elif spacing == "irregular":
+        t = _irregular(rng, nt, "time")
+        fr = [x / 250 for x in _irregular(rng, nf, "frequency")]
+    else:
+        t, inp["time_range"] = _range_axis(rng, nt, "time", reach == "below")
+        fr, inp["freq_range"] = _range_axis(rng, nf, "freq", reach == "below")
+        inp["time_via"] = "range" if inp["time_range"] else "array"
+        inp["freq_via"] = "range" if inp["freq_range"] else "array"
+    if spacing != "range" and reach == "below":
+        t, fr = [c + off_t for c in t], [c + off_f for c in fr]
+    if spacing in ("half", "decimal"):
+        inp["time_via"] = rng.choice(["array", "array", "array_step", "plain"])
+        inp["freq_via"] = rng.choice(["array", "array", "array_step", "plain"])
+    ctx.tally("general-axis:" + spacing)
+    gtype = fix.get("gtype")
+    k = rng.choice([0, 1, 1, 2, 2, 3, 4]) if gtype is None else rng.choice([1, 1, 2, 3])
+    if prev_geoms is not None and not fix and rng.random() < 0.15:
+        geoms = prev_geoms                    # the same geometries on another template (no state is carried over)
+        ctx.tally("general:geometries-reused")
+    else:
+        tp, fp = _positions(rng, t), _positions(rng, fr)
+        geoms = []
+        for gi in range(k):
+            ty = gtype if (gi == 0 and gtype) else rng.choice(ALL_TYPES)
+            (t0, t1), (f0, f1) = _region(t, reach if gi == 0 else "inside"), _region(fr, reach if gi == 0 else "inside")
+            g = _typed_geometry(rng, ty, t0, max(t1, t0 + 1.5), f0, max(f1, f0 + 1.5))
+            if gi == 0 and reach == "on-last":
+                g = _on_last(rng, g, t, fr)
+            elif gi == 0 and reach != "inside":
+                pass
+            elif rng.random() < 0.4:
+                g = _snap(rng, g, tp, fp)
+            elif g["type"] == "BoundingBox" and rng.random() < 0.5:
+                g = _box(rng, tp, fp)
+                if gtype == "BoundingBox" and gi == 0 and g["type"] != "BoundingBox":
+                    g = {"type": "BoundingBox", "coordinates": [g["coordinates"][0], rat(fp[0]), g["coordinates"][1], rat(fp[-1])]}
+            elif g["type"] in POLY_SHAPES and rng.random() < 0.3:
+                g = _unclose(g)               # rings given without the closing vertex (shapely closes them)
+                ctx.tally("general:unclosed-rings")
+            geoms.append(g)
+    for g in geoms:
+        ctx.tally("general-geom:" + g["type"])
+    dtype = pick("dtype", [None, None] + DTYPES)
+    fk = pick("fill", ["absent", "absent", "zero", "int", "int", "frac"] if dtype in (None, "float32", "float64")
+              else ["absent", "absent", "zero", "int", "int"])
+    if fk == "frac" and dtype in INT_DTYPES:
+        dtype = "float32"
+    fill = {"absent": None, "zero": 0, "int": rng.choice([7, 1] if dtype == "uint8" else [-1, 7, 1]),
+            "frac": rat(rng.choice([Fraction(-1, 2), Fraction(1, 4), Fraction(5, 2)]))}[fk]
+    pool = _value_pool(dtype or "float32", 0 if fill is None else fill)
+    vals = [rng.choice(pool) for _ in geoms]
+    inp.update({"time": rats(t), "freq": rats(fr), "time_first": pick("time_first"), "geoms": geoms, "fill": fill,
+                "dtype": dtype, "dtype_as": rng.choice(["str", "str", "np", "type"]),
+                "all_touched": pick("all_touched", [None, False, True, True]), "contents": rng.choice([0, 1, 2]),
+                "extra_dim": pick("extra_dim", [None, None, None, 0, 1, 2]), "twice": rng.random() < 0.1})
+    vk = pick("values_kind", ["absent", "scalar", "list", "list", "list", "tuple", "np", "wrong"])
+    inp["values_tuple"], inp["values_np"] = vk == "tuple" or (vk != "list" and rng.random() < 0.2), vk == "np"
+    inp["values"] = {"absent": None, "scalar": vals[0] if vals else 1,
+                     "wrong": (vals + [3]) if (rng.random() < 0.5 or not vals) else vals[:-1]}.get(vk, vals)
+    ca = pick("call_as", ["kw", "kw", "kw", "kw_all", "pos1", "pos2", "pos3", "pos4", "pos5", "pos6"])
+    inp["call_as"] = ["pos", int(ca[3:])] if ca.startswith("pos") else ca
+    inp["geom_build"] = pick("geom_build", ["validate", "validate", "validate"] + list(B.GEOM_BUILDS))
+    inp["tpl_how"] = pick("tpl_how", [None, None, None, None] + list(B.TPL_HOWS))
+    inp["geoms_seq"] = rng.choice(["list", "list", "list", "tuple"])
+    inp["fill_np"], inp["at_np"] = rng.random() < 0.15, rng.random() < 0.15
+    inp["dims_as"] = rng.choice([None, None, None, "str", "enum"])
+    for key in ("values", "fill", "dtype", "all_touched"):
+        if inp[key] is None:
+            ctx.tally("general-default:" + key)
+    ctx.tally("general-call:" + ca)
+    ctx.tally("general-build:" + inp["geom_build"])
+    ctx.tally("general-template:" + str(inp["tpl_how"]))
+    ctx.tally("general-reach:" + reach)
+    return inp
+
+
 def _general_cases(ctx, n):
     """requests over all nine geometry types; keys left out of the request are left to rasterize's defaults"""
-    rng = ctx.rng
     prev = None
     for _ in range(n):
-        nt, nf = rng.randint(1, 8), rng.randint(1, 8)
-        spacing = rng.choice(["half", "decimal", "irregular"])
-        if spacing == "half":
-            t, fr = [i * 0.5 for i in range(nt)], [i * 1.0 for i in range(nf)]
-        elif spacing == "decimal":
-            t, fr = [0.25 + i * 0.1 for i in range(nt)], [0.5 + i * 0.3 for i in range(nf)]
-        else:
-            t = _irregular(rng, nt, "time")
-            fr = [x / 250 for x in _irregular(rng, nf, "frequency")]
-        ctx.tally("general-axis:" + spacing)
-        k = rng.choice([0, 1, 1, 2, 2, 3, 4])
-        if prev is not None and rng.random() < 0.15:
-            geoms = prev                          # the same geometries on another template (no state is carried over)
-            ctx.tally("general:geometries-reused")
-        else:
-            tp, fp = _positions(rng, t), _positions(rng, fr)
-            geoms = []
-            for _g in range(k):
-                g = gen_geom.gen_valid(rng, rng.choice(ALL_TYPES), tmax=max(t[-1] + 1, 1.5), fmax=max(fr[-1] + 1, 1.5), k=3)
-                if rng.random() < 0.4:
-                    g = _snap(rng, g, tp, fp)
-                elif g["type"] == "BoundingBox" and rng.random() < 0.5:
-                    g = _box(rng, tp, fp)
-                elif g["type"] in POLY_SHAPES and rng.random() < 0.3:
-                    g = _unclose(g)               # rings given without the closing vertex (shapely closes them)
-                    ctx.tally("general:unclosed-rings")
-                geoms.append(g)
-        prev = geoms
-        for g in geoms:
-            ctx.tally("general-geom:" + g["type"])
-        dtype = rng.choice([None, None] + DTYPES)
-        fill = rng.choice([None, None, 0, -1, 7, 1])
-        if dtype == "uint8" and fill is not None:
-            fill = abs(fill)
-        if dtype in (None, "float32", "float64") and rng.random() < 0.15:
-            fill = rat(rng.choice([Fraction(-1, 2), Fraction(1, 4), Fraction(5, 2)]))
-        pool = _value_pool(dtype or "float32", 0 if fill is None else fill)
-        vals = [rng.choice(pool) for _ in geoms]
-        inp = {"time": rats(t), "freq": rats(fr), "time_first": rng.random() < 0.5, "geoms": geoms, "fill": fill,
-               "dtype": dtype, "dtype_as": rng.choice(["str", "str", "np", "type"]),
-               "all_touched": rng.choice([None, False, True, True]), "contents": rng.choice([0, 1, 2]),
-               "extra_dim": rng.choice([None, None, None, 0, 1, 2]), "twice": rng.random() < 0.1}
-        _values_variant(rng, vals, inp)
-        if rng.random() < 0.2:
-            inp["values"] = None                  # default: the value 1 for every geometry
-        for key in ("values", "fill", "dtype", "all_touched"):
-            if inp[key] is None:
-                ctx.tally("general-default:" + key)
+        inp = _general_case(ctx, ctx.rng, None, prev)
+        prev = inp["geoms"]
         yield inp
+
+
+def _pairwise_cases(ctx, rounds=1):
+    """HISTORIES.md 3: every pair of option values (geometry type x template shape x dimension order x extra dimension
+    x all_touched x fill x dtype x kind of value list x reach of the geometry x axis kind x way of calling x way of
+    building geometries x way of building the template) occurs in at least `rounds` requests: greedy covering array"""
+    rng = ctx.rng
+    dims = sorted(PAIR_DIMS)
+    need = {(a, i, b, j) for x, a in enumerate(dims) for b in dims[x + 1:]
+            for i in range(len(PAIR_DIMS[a])) for j in range(len(PAIR_DIMS[b]))
+            if _pair_ok(a, PAIR_DIMS[a][i], b, PAIR_DIMS[b][j])}
+    total = len(need)
+    order = sorted(need)
+    out = []
+    for _ in range(rounds):
+        todo = set(need)
+        ptr = 0
+        while todo:
+            while order[ptr] not in todo:
+                ptr += 1
+            seedp = order[ptr]                       # the first pair (in a fixed order) not covered yet
+            best, gain = None, -1
+            for _try in range(30):
+                cand = {d: rng.randrange(len(PAIR_DIMS[d])) for d in dims}
+                cand[seedp[0]], cand[seedp[2]] = seedp[1], seedp[3]
+                if cand["fill"] == PAIR_DIMS["fill"].index("frac") and PAIR_DIMS["dtype"][cand["dtype"]] in INT_DTYPES:
+                    if seedp[0] == "dtype" or seedp[2] == "dtype":
+                        cand["fill"] = 0
+                    else:
+                        cand["dtype"] = 0
+                cov = sum(1 for x, a in enumerate(dims) for b in dims[x + 1:] if (a, cand[a], b, cand[b]) in todo)
+                if cov > gain:
+                    best, gain = cand, cov
+            for x, a in enumerate(dims):
+                for b in dims[x + 1:]:
+                    todo.discard((a, best[a], b, best[b]))
+            out.append(_general_case(ctx, rng, {d: PAIR_DIMS[d][best[d]] for d in dims}))
+    ctx.exhaustive["rasterize_all-pairwise"] = (f"all {total} admissible pairs of option values over {len(dims)} option classes "
+                                                f"({', '.join(dims)}) in {len(out)} requests")
+    for inp in out:
+        inp["twice"] = False
+    return out
 
 
 def _monitor_cases(ctx, n):
@@ -708,6 +842,359 @@ def _monitor_cases(ctx, n):
                "values": rng.sample(range(1, 9), k), "fill": rng.choice([0, -1]), "dtype": "float32", "all_touched": False}
 
 
+# ---- HISTORIES.md 4: every lattice point of non-dyadic axes, tolerance-sized offsets, size thresholds
+LATTICE_AXES = [
+    # (which, constructor spec, number of bins of the other axis)
+    ("time", {"start": "0", "stop": "1", "samplerate": 100}),            # create_time_range(0, 1, samplerate=100)
+    ("time", ["1/2", "11/10", "1/100"]),                                  # create_time_range(0.5, 1.1, step=0.01)
+    ("time", {"start": "0", "stop": "1", "samplerate": 10}),
+    ("time", ["0", "3/10", "1/250"]),                                     # step 0.004
+    ("freq", ["0", "10", "1/10"]),                                        # create_frequency_range(0, 10, step=0.1)
+    ("freq", ["0", "2002", "1001/10"]),                                   # step 100.1
+    ("freq", ["1000", "2033584/1000", "43066/1000"]),                     # step 43.066 from 1000 Hz
+]
+LATTICE_AXES_THOROUGH = [("time", {"start": "0", "stop": "1", "samplerate": 1000}), ("freq", ["0", "50", "1/20"]),
+                         ("time", ["3", "4", "1/300"]), ("freq", ["0", "12000", "1000/3"])]
+
+
+def _built_axis(which, spec):
+    """the coordinates a range constructor of the library gives for `spec` (the request then records these numbers)"""
+    from soundevent import arrays
+    if isinstance(spec, dict):
+        var = arrays.create_time_range(float(frac(spec["start"])), float(frac(spec["stop"])), samplerate=spec["samplerate"])
+        return [float(x) for x in var.values], 1.0 / spec["samplerate"]
+    a, b, s = (float(frac(x)) for x in spec)
+    var = arrays.create_time_range(a, b, step=s) if which == "time" else arrays.create_frequency_range(a, b, step=s)
+    return [float(x) for x in var.values], s
+
+
+def _lattice_variants(coords, k, start, step):
+    """positions that all belong to lattice point k: the coordinate the template carries, the decimal number a
+    user writes for it (start + k * step rounded to 12 decimals, k / samplerate), one ulp either side"""
+    c = coords[k]
+    lit = round(start + k * step, 12)
+    out = [("coord", c), ("decimal", lit), ("quot", start + k / (1 / step)), ("ulp-up", ulp_up(c)), ("ulp-down", ulp_down(c))]
+    if k + 1 < len(coords):
+        out.append(("centre", (c + coords[k + 1]) / 2))
+    return [(n, p) for n, p in out if p >= 0]
+
+
+def _lattice_cases(ctx, axes):
+    """boxes (and a few points / stamps / intervals) whose corners sweep every lattice point and every bin centre of
+    axes built by create_time_range / create_frequency_range with a non-dyadic step stored in the 'step' attribute"""
+    rng = ctx.rng
+    boxes, others = [], []
+    for which, spec in axes:
+        coords, step = _built_axis(which, spec)
+        n = len(coords)
+        other = [0.0, 0.5, 1.0] if which == "freq" else [0.0, 100.0, 200.0, 300.0]
+        w = max(n // 5, 1)
+        for k in range(n):
+            for name, p in _lattice_variants(coords, k, coords[0], step):
+                k2 = (k + w) if k + w < n else None
+                q = rng.choice(_lattice_variants(coords, k2, coords[0], step))[1] if k2 is not None else coords[-1] + 3 * step
+                lo, hi = (p, q) if p <= q else (q, p)
+                if k2 is None and rng.random() < 0.5 and k >= 1:          # the lattice point as the *end* of a box
+                    lo, hi = coords[rng.randrange(0, k)], p
+                a, b = sorted(rng.sample([0.0] + [c + (other[1] - other[0]) / 2 for c in other] + [other[-1] * 2 + 1], 2))
+                if which == "time":
+                    geom = {"type": "BoundingBox", "coordinates": [rat(lo), rat(a), rat(hi), rat(b)]}
+                    t, fr = coords, other
+                else:
+                    geom = {"type": "BoundingBox", "coordinates": [rat(a), rat(lo), rat(b), rat(hi)]}
+                    t, fr = other, coords
+                inp = {"time": rats(t), "freq": rats(fr), "time_first": rng.random() < 0.5, "geoms": [geom],
+                       "values": [rng.choice([1, 2, 5])], "fill": rng.choice([0, 0, -1]), "dtype": "float32",
+                       "all_touched": rng.random() < 0.3, "contents": 0,
+                       which + "_via": "range", which + "_range": spec}
+                ctx.tally(f"lattice:{which}:{name}")
+                boxes.append(inp)
+                if name in ("coord", "decimal", "quot") and rng.random() < 0.25:
+                    if which == "time":
+                        g2 = rng.choice([{"type": "TimeStamp", "coordinates": rat(p)},
+                                         {"type": "Point", "coordinates": [rat(p), rat(rng.choice(other))]},
+                                         {"type": "TimeInterval", "coordinates": [rat(lo), rat(hi)]}])
+                    else:
+                        g2 = {"type": "Point", "coordinates": [rat(rng.choice(other)), rat(p)]}
+                    others.append({**inp, "geoms": [g2], "all_touched": None, "twice": False})
+        ctx.exhaustive[f"lattice:{which}:{json.dumps(spec)}"] = (
+            f"every one of the {n} lattice points (as the stored coordinate, the decimal literal, the quotient k/(1/step), "
+            f"one ulp above and below) and every bin centre, as a box corner")
+    return boxes, others
+
+
+def _near(c, scale):
+    """tolerance-sized offsets around a comparison point: one ulp, 1e-12 ... 1e-6 relative to the magnitude"""
+    out = [c, ulp_up(c), ulp_down(c)]
+    for e in (1e-12, 1e-10, 1e-9, 1e-8, 1e-6):
+        out += [c + e * scale, c - e * scale]
+    return [p for p in out if p >= 0]
+
+
+def _edge_cases(ctx, n):
+    """HISTORIES.md 4: every comparison the property pins (value < first coordinate, value > last coordinate, the
+    bin edges) with the value an ulp / 1e-12 ... 1e-6 relative either side and exactly on it, at small and large
+    magnitudes (time axes at 0 s and at 1e6 s, frequency axes at 0 Hz and at 1e5 Hz, steps 1e-3 ... 1e3)"""
+    rng = ctx.rng
+    for _ in range(n):
+        nt, nf = rng.randint(2, 6), rng.randint(2, 6)
+        t0, ts = rng.choice([0.0, 0.5, 1e6, 86400.0]), rng.choice([0.5, 0.01, 1e-3, 0.1, 64.0])
+        f0, fs = rng.choice([0.0, 1e5, 22050.0, 0.25]), rng.choice([125.0, 43.066, 1000.0, 1e-2])
+        t, fr = [t0 + i * ts for i in range(nt)], [f0 + i * fs for i in range(nf)]
+        tp = [p for c in t for p in _near(c, max(abs(c), ts))]
+        fp = [p for c in fr for p in _near(c, max(abs(c), fs))]
+        geoms = []
+        for _g in range(rng.choice([1, 1, 2])):
+            ty = rng.choice(["BoundingBox", "BoundingBox", "TimeInterval", "Point", "TimeStamp", "LineString"])
+            a, b = sorted(rng.sample(tp, 2))
+            c, d = sorted(rng.sample(fp, 2))
+            coords = {"BoundingBox": [rat(a), rat(c), rat(b), rat(d)], "TimeInterval": [rat(a), rat(b)],
+                      "Point": [rat(a), rat(c)], "TimeStamp": rat(a), "LineString": [[rat(a), rat(c)], [rat(b), rat(d)]]}[ty]
+            geoms.append({"type": ty, "coordinates": coords})
+        ctx.tally("edges:magnitude:" + ("large" if t0 >= 1e4 or f0 >= 1e4 else "small"))
+        via = rng.choice(["array", "array_step", "plain"])
+        yield {"time": rats(t), "freq": rats(fr), "time_first": rng.random() < 0.5, "geoms": geoms,
+               "values": [rng.choice([1, 2, 3, 5]) for _ in geoms], "fill": rng.choice([None, 0, -1]), "dtype": None,
+               "all_touched": rng.choice([None, False, True]), "contents": 0, "time_via": via, "freq_via": via}
+
+
+def _ring(n, ct, cf, rt, rf, q=64):
+    """a simple closed polygon ring with n vertices around (ct, cf) (vertices on a 1/q grid, strictly increasing angle)"""
+    import math
+    pts = []
+    for i in range(n):
+        a = 2 * math.pi * i / n
+        r = 1.0 if i % 2 == 0 else 0.93
+        p = [Fraction(round((ct + rt * r * math.cos(a)) * q), q), Fraction(round((cf + rf * r * math.sin(a)) * q), q)]
+        if not pts or p != pts[-1]:
+            pts.append(p)
+    if pts[-1] == pts[0]:
+        pts.pop()
+    return [[rat(max(x, 0)), rat(max(y, 0))] for x, y in pts + [pts[0]]]
+
+
+def _size_cases(ctx):
+    """HISTORIES.md 4: sizes at which an implementation could switch strategy - more than 16 geometries / values,
+    more than 256 and 1024 vertices in one geometry, 1024 and more geometries, axes of 1024 and more bins"""
+    rng = ctx.rng
+    out = []
+    t, fr = [i * 0.5 for i in range(8)], [i * 1.0 for i in range(6)]
+    tp, fp = _positions(rng, t), _positions(rng, fr)
+    base = {"time": rats(t), "freq": rats(fr), "fill": 0, "dtype": "float32", "all_touched": False, "contents": 0}
+    for ngeo in (16, 17, 33, 257) + ((1024, 1025) if ctx.thorough() else (1025,)):
+        geoms = [_box(rng, tp, fp) if rng.random() < 0.7 else _snap(rng, {"type": "Point"}, tp, fp) for _ in range(ngeo)]
+        vals = [rng.choice([1, 2, 3, 4, 5, 6, 7, 8]) for _ in geoms]
+        out.append({**base, "time_first": rng.random() < 0.5, "geoms": geoms, "values": vals})
+        out.append({**base, "time_first": rng.random() < 0.5, "geoms": geoms, "values": 3, "values_tuple": False})
+        ctx.tally(f"sizes:geometries:{ngeo}")
+    for nv in (16, 17, 256, 257, 1023, 1024, 1025):
+        ring = _ring(nv, 2.0, 2.5, 1.9, 2.4, q=4096)
+        hole = _ring(max(nv // 8, 3), 2.0, 2.5, 0.5, 0.6, q=4096)
+        line = [[rat(Fraction(i * 4, nv)), rat(Fraction(5 * (i % 7), 7))] for i in range(nv)]
+        mpts = [[rat(Fraction((i * 37) % 400, 100)), rat(Fraction((i * 11) % 550, 100))] for i in range(nv)]
+        geoms = [{"type": "Polygon", "coordinates": [ring, hole]}, {"type": "LineString", "coordinates": line},
+                 {"type": "MultiPoint", "coordinates": mpts}]
+        for g in geoms:
+            out.append({**base, "time_first": rng.random() < 0.5, "geoms": [g], "values": [2],
+                        "all_touched": rng.random() < 0.5})
+        ctx.tally(f"sizes:vertices:{nv}")
+    for nbins in (1023, 1024, 1025):
+        big = [i * 0.25 for i in range(nbins)]
+        small = [0.0, 1.0, 2.0]
+        for which in ("time", "freq"):
+            tt, ff = (big, small) if which == "time" else (small, big)
+            btp, bfp = _positions(rng, tt), _positions(rng, ff)
+            geoms = [_box(rng, btp, bfp) for _ in range(3)]
+            out.append({**base, "time": rats(tt), "freq": rats(ff), "time_first": rng.random() < 0.5, "geoms": geoms,
+                        "values": [1, 2, 3]})
+        ctx.tally(f"sizes:bins:{nbins}")
+    return out
+
+# ------------------------------------------------------------------ histories (harness/history.py, HISTORIES.md 1)
+# Consecutive rasterize calls in one process on shared identities.  Every step is judged like a case of
+# `rasterize_all` (the Lean model is pure: the session theorem C20_history_independent says the k-th answer of a
+# session is the answer to the k-th request alone); arguments are snapshotted around every call; results are
+# poisoned by the caller and re-read after later calls.
+TPL_KEYS = ("time", "freq", "time_first", "extra_dim", "contents", "time_via", "freq_via", "time_range", "freq_range",
+            "time_step", "freq_step", "tpl_how")
+H_REUSE = ("same_template", "same_geoms", "tpl_coords_assign", "tpl_data_inplace", "geom_assign", "geom_inplace",
+           "geom_copy_update", "geom_deep_copy_update", "list_inplace")
+
+
+def _same(a, b, keys):
+    return all(a.get(k) == b.get(k) for k in keys)
+
+
+def _h_build(inp):
+    return {"inp": inp, "geoms": B.geometries(inp), "tpl": B.template(inp), "kw": B.optional_args(inp)}
+
+
+def _h_call(args):
+    return B.call(args["inp"], args["geoms"], args["tpl"], kw=args["kw"])
+
+
+def _h_canon(inp, args, res):
+    return _canon(res, inp)
+
+
+def _h_snapshot(args):
+    return {"tpl": B.template_snapshot(args["tpl"]), "geoms": B.geometries_snapshot(args["geoms"]),
+            "kw": sorted((k, repr(v)) for k, v in args["kw"].items())}
+
+
+def _set_in_place(old, new):
+    """overwrite the numbers of a nested coordinate list in place; False when the nesting differs"""
+    if isinstance(old, list) and isinstance(new, list) and len(old) == len(new):
+        if all(not isinstance(x, list) for x in new) and all(not isinstance(x, list) for x in old):
+            old[:] = new
+            return True
+        if all(isinstance(x, list) for x in new) and all(isinstance(x, list) for x in old):
+            return all(_set_in_place(o, n) for o, n in zip(old, new))
+    return False
+
+
+def _h_modify(args, inp, how):
+    """the live objects of the previous step turned into the arguments of this step: nothing a template, a geometry
+    or a list remembered from its earlier use may survive the change"""
+    import numpy as np
+    prev = args["inp"]
+    tpl, geoms = None, None
+    if how in ("same_template", "tpl_data_inplace") and _same(prev, inp, TPL_KEYS):
+        tpl = args["tpl"]
+        if how == "tpl_data_inplace":            # the template's contents are not part of the request
+            tpl.values[...] = np.random.RandomState(len(inp["geoms"]) + 7).uniform(-9, 9, size=tpl.shape)
+    elif how == "tpl_coords_assign" and _same(prev, inp, ("time_first", "extra_dim", "tpl_how")) \
+            and len(prev["time"]) == len(inp["time"]) and len(prev["freq"]) == len(inp["freq"]) \
+            and inp.get("tpl_how") in (None, "int_data", "coords_rev"):
+        tpl = args["tpl"]                        # the same DataArray object with its coordinates replaced
+        tpl.coords["time"] = B.axis_variable(inp, "time")
+        tpl.coords["frequency"] = B.axis_variable(inp, "freq")
+    elif how == "same_geoms" and prev["geoms"] == inp["geoms"] and _same(prev, inp, ("geom_build", "geoms_seq")):
+        geoms = args["geoms"]
+    elif how in ("geom_assign", "geom_inplace", "geom_copy_update", "geom_deep_copy_update", "list_inplace"):
+        fresh = B.geometries(inp)                # the validated form of the new content
+        old = list(args["geoms"])
+        out = []
+        for k, g in enumerate(fresh):
+            o = old[k] if k < len(old) and old[k].type == g.type else None
+            if o is None or how == "list_inplace":
+                out.append(g)
+            elif how == "geom_assign":
+                o.coordinates = g.coordinates
+                out.append(o)
+            elif how == "geom_inplace":
+                if not _set_in_place(o.coordinates, g.coordinates):
+                    o.coordinates = g.coordinates
+                out.append(o)
+            else:
+                out.append(o.model_copy(update={"coordinates": g.coordinates}, deep=(how == "geom_deep_copy_update")))
+        if how == "list_inplace" and isinstance(args["geoms"], list) and inp.get("geoms_seq") != "tuple":
+            geoms = args["geoms"]
+            geoms[:] = out                       # the caller's list object, refilled
+        else:
+            geoms = tuple(out) if inp.get("geoms_seq") == "tuple" else out
+    else:
+        return None
+    kw = B.optional_args(inp)
+    if how == "list_inplace" and isinstance(args["kw"].get("values"), list) and isinstance(kw.get("values"), list):
+        vals = args["kw"]["values"]
+        vals[:] = kw["values"]
+        kw["values"] = vals
+    return {"inp": inp, "geoms": geoms if geoms is not None else B.geometries(inp),
+            "tpl": tpl if tpl is not None else B.template(inp), "kw": kw}
+
+
+def _h_poison(res):
+    """the caller edits the raster it got back (it is the caller's): nothing may be shared with later calls"""
+    try:
+        res.values[...] = 99
+        res.attrs["edited"] = True
+    except Exception:  # noqa: BLE001 - a read-only result cannot be poisoned
+        return False
+    return True
+
+
+def _h_variants(x, rng):
+    """neighbours of a request: exactly one part changed, everything else (identities included) the same"""
+    out = []
+    pool = _value_pool(x.get("dtype") or "float32", 0 if x.get("fill") is None else x["fill"])
+    # same template (same shape and dtype): other geometries / values / fill
+    tp, fp = _positions(rng, fl(x["time"])), _positions(rng, fl(x["freq"]))
+    k = rng.choice([1, 1, 2, 3])
+    geoms = [_box(rng, tp, fp) if rng.random() < 0.6 else
+             gen_geom.gen_valid(rng, rng.choice(ALL_TYPES), tmax=max(tp[-1], 1.5), fmax=max(fp[-1], 1.5), k=3)
+             for _ in range(k)]
+    out.append({**x, "geoms": geoms, "values": [rng.choice(pool) for _ in geoms]})
+    if isinstance(x.get("values"), list) and len(x["values"]) == len(x["geoms"]) and x["geoms"]:
+        out.append({**x, "values": [rng.choice(pool) for _ in x["geoms"]]})
+        out.append({**x, "values": list(reversed(x["values"]))})
+    unsigned = x.get("dtype") == "uint8"
+    out.append({**x, "fill": rng.choice([5, 7] if unsigned else [-1, 7, 5])})
+    out.append({**x, "all_touched": not x.get("all_touched")})
+    out.append({**x, "dtype": rng.choice([d for d in DTYPES if d != x.get("dtype") and not
+                                          (d == "uint8" and x.get("fill") is not None and frac(x["fill"]) < 0)
+                                          and (d in ("float32", "float64") or _integral(x))])})
+    # a plain call after a call with options (options must not leak into module state)
+    out.append({**x, "values": None, "fill": None, "dtype": None, "all_touched": None, "call_as": "kw"})
+    # the same geometries on another template of the same shape / on the transposed template
+    out.append({**x, "time_first": not x["time_first"]})
+    out.append({**x, "time": rats([2 * c + 0.5 for c in fl(x["time"])]), "freq": rats([c / 2 + 1 for c in fl(x["freq"])]),
+                "time_via": "array", "freq_via": "array", "tpl_how": None})
+    if len(x["time"]) != len(x["freq"]):
+        out.append({**x, "time": x["freq"], "freq": x["time"], "time_via": "array", "freq_via": "array", "tpl_how": None})
+    return out
+
+
+def _integral(x):
+    nums = [x.get("fill")] + (x["values"] if isinstance(x.get("values"), list) else [x.get("values")])
+    return all(v is None or frac(v).denominator == 1 for v in nums)
+
+
+OPS["raster_history"] = history.history_op("raster_history", OPS["rasterize_all"], _h_build, _h_call, _h_canon,
+                                           snapshot=_h_snapshot, modify=_h_modify, poison=_h_poison)
+
+
+def _stage_pairwise(ctx):
+    ctx.run_cases(OPS["rasterize_all"], _pairwise_cases(ctx, ctx.budget(1, 4)))
+
+
+def _stage_lattice(ctx):
+    boxes, others = _lattice_cases(ctx, LATTICE_AXES + (LATTICE_AXES_THOROUGH if ctx.thorough() else []))
+    ctx.run_cases(OPS["rasterize"], boxes)
+    ctx.run_cases(OPS["rasterize_all"], others)
+
+
+def _stage_edges(ctx):
+    ctx.run_cases(OPS["rasterize_all"], _edge_cases(ctx, ctx.budget(300, 4000)))
+
+
+def _stage_sizes(ctx):
+    ctx.run_cases(OPS["rasterize_all"], _size_cases(ctx))
+
+
+def _history_base(ctx, n):
+    """small requests for the histories: explicit per-geometry value lists so that neighbours can permute them"""
+    out = []
+    for _ in range(n):
+        inp = _general_case(ctx, ctx.rng, {"values_kind": ctx.rng.choice(["list", "list", "tuple", "scalar"])})
+        inp["twice"] = False
+        out.append(inp)
+    return out
+
+
+def _stage_histories(ctx):
+    """consecutive calls in one process: the same template with other geometries / values / fill / dtype /
+    all_touched, the same geometries on other templates, template / geometry / list objects that were used, changed
+    (assignment, in place, model_copy) and used again, results edited by the caller, results re-read after later calls"""
+    rng = ctx.rng
+    base = _history_base(ctx, ctx.budget(60, 600))
+    hs = history.sequences(rng, base, ctx.budget(150, 1500), variants=_h_variants, reuse_hows=H_REUSE, poison=True)
+    for h in hs:
+        for st in h["seq"]:
+            ctx.tally("history:" + (st.get("reuse") or "fresh") + ("+poison" if st.get("poison") else ""))
+    ctx.run_cases(OPS["raster_history"], hs)
+
+
 def run(ctx):
     ctx.stage("corpus", ctx.run_corpus, OPS)
     ctx.stage("tables", _tables, ctx)
@@ -717,11 +1204,22 @@ def run(ctx):
     ctx.stage("rasterio-point-rule", _point_contract, ctx)
     ctx.stage("rasterize-exact", lambda: ctx.run_cases(OPS["rasterize"], _raster_cases(ctx, ctx.budget(6, 60))))
     ctx.exhaustive["rasterize"] = "every template shape 1-8 x 1-8, both dimension orders"
-    ctx.stage("rasterize-all-types", lambda: ctx.run_cases(OPS["rasterize_all"], _general_cases(ctx, ctx.budget(900, 12000))))
+    ctx.stage("lattice-sweep", _stage_lattice, ctx)
+    ctx.stage("option-pairs", _stage_pairwise, ctx)
+    ctx.stage("rasterize-all-types", lambda: ctx.run_cases(OPS["rasterize_all"], _general_cases(ctx, ctx.budget(700, 12000))))
+    ctx.stage("edge-offsets", _stage_edges, ctx)
+    ctx.stage("size-thresholds", _stage_sizes, ctx)
+    ctx.stage("histories", _stage_histories, ctx)
     ctx.stage("polygon-monitor", lambda: ctx.run_cases(OPS["raster_monitor"], _monitor_cases(ctx, ctx.budget(150, 3000))))
 
 
 def search(ctx, failures):
     ctx.run_cases(OPS["rasterize"], _raster_cases(ctx, 10))
+    boxes, others = _lattice_cases(ctx, LATTICE_AXES)
+    ctx.run_cases(OPS["rasterize"], boxes)
+    ctx.run_cases(OPS["rasterize_all"], others)
     ctx.run_cases(OPS["rasterize_all"], _general_cases(ctx, 1500))
+    ctx.run_cases(OPS["rasterize_all"], _edge_cases(ctx, 300))
+    ctx.run_cases(OPS["raster_history"], history.sequences(ctx.rng, _history_base(ctx, 80), 200, variants=_h_variants,
+                                                          reuse_hows=H_REUSE, poison=True))
     ctx.run_cases(OPS["raster_monitor"], _monitor_cases(ctx, 300))
